@@ -18,7 +18,20 @@ def T(coeffs: Dict[str, float], k: float) -> Dict[str, Any]:
     return {"c": {v: float(c) for v, c in coeffs.items() if c != 0}, "k": float(k)}
 
 
+WIDE = [1.0, 2.0, 3.0, 0.5, 0.125, 1.234, 9.999, 12.5, 0.001, 0.0101, 4567.0, 0.3333, 78.9, 123400.0, 0.0001,
+        2.5e5, 1e6, 1000.0, 0.02]
+
+
+def wide_number(rng) -> float:
+    """Magnitudes between 1e-4 and 1e6 (the range named by C10), mixed within one constraint."""
+    if rng.random() < 0.7:
+        return float(rng.choice(WIDE))
+    return float("%.4g" % (10 ** rng.uniform(-4, 6)))
+
+
 def coef(rng, style: str = "int") -> float:
+    if style == "wide":
+        return wide_number(rng) * rng.choice([1.0, -1.0])
     if style == "int":
         return float(rng.choice(SMALL))
     if style == "dyadic":
@@ -33,6 +46,9 @@ def coef(rng, style: str = "int") -> float:
 
 
 def const(rng, style: str = "int", lo: int = -5, hi: int = 9) -> float:
+    if style == "wide":
+        x = wide_number(rng)
+        return x if (lo >= 0 or rng.random() < 0.6) else -x
     if style in ("int", "unit"):
         return float(rng.randint(lo, hi))
     if style == "dyadic":
@@ -393,7 +409,7 @@ def feasible_point_list(rng, vs: Sequence[str], n: int, style: str = "int") -> L
 def containment_pair(rng) -> Dict[str, Any]:  # noqa: C901
     fam = rng.choice(["unrelated", "weaken", "farkas", "boundary", "separated", "reflexive", "sublist",
                       "unbounded", "emptyleft", "emptyright", "near", "unrelated", "farkas", "weaken"])
-    style = rng.choice(["int", "int", "dyadic", "int", "decimal", "float"])
+    style = rng.choice(["int", "int", "dyadic", "int", "decimal", "float", "wide"])
     if fam in ("near",):
         style = "int"
     nv = rng.randint(1, 4)
